@@ -176,7 +176,7 @@ def r3_siblings(ctx):
     for name, base in (('get_all_tokens_encodings', 'get_all_tokens'), ('get_unique_token_encodings', 'get_unique_tokens')):
         f = ctx.prog.func(f'{DOC}.{name}')
         rets = symex.returns(f)
-        ok = len(rets) == 1 and src(rets[0][1]) == f'Document.tokens_to_encodings(self.{base}({f.params[1]}))'
+        ok = len(rets) == 1 and F.same(ctx, f, rets[0][1], f'Document.tokens_to_encodings(self.{base}({f.params[1]}))', f'self.tokens_to_encodings(self.{base}({f.params[1]}))', f'cls.tokens_to_encodings(self.{base}({f.params[1]}))')
         ctx.check(ok, 'R3', f.loc, f.qualname, f'derived:{name}', f'{name} = encodings of {base}(filter)',
                   f'{name} returns `{src(rets[0][1]) if rets else None}`')
     te = ctx.prog.func(f'{DOC}.tokens_to_encodings')
@@ -187,21 +187,17 @@ def r3_siblings(ctx):
     ctx.check(ok, 'R3', te.loc, te.qualname, 'tokens-to-encodings', 'tokens_to_encodings maps each token to its encoding, in order')
     hn = ctx.prog.func(f'{DOC}.get_header_nodes')
     rets = symex.returns(hn)
-    ok = len(rets) == 1 and src(rets[0][1]) in (
-        '[token for token in self.get_all_tokens(filter_by_categories=None) if isinstance(token, HeaderToken)]',
-        '[token for token in self.get_all_tokens() if isinstance(token, HeaderToken)]',
-        '[token for token in self.get_all_tokens(None) if isinstance(token, HeaderToken)]')
+    ok = len(rets) == 1 and F.same(ctx, hn, rets[0][1], '[token for token in self.get_all_tokens() if isinstance(token, HeaderToken)]')
     ctx.check(ok, 'R3', hn.loc, hn.qualname, 'derived:get_header_nodes', 'get_header_nodes = the HeaderTokens of the full listing, in order')
     si = ctx.prog.func(f'{DOC}.get_spine_ids')
     rets = symex.returns(si)
-    ok = len(rets) == 1 and src(rets[0][1]) == '[node.spine_id for node in self.get_header_nodes()]'
+    ok = len(rets) == 1 and F.same(ctx, si, rets[0][1], '[node.spine_id for node in self.get_header_nodes()]')
     ctx.check(ok, 'R3', si.loc, si.qualname, 'derived:get_spine_ids', 'get_spine_ids = spine ids of the header nodes, in order')
     fr = ctx.prog.func(f'{DOC}.frequencies')
     p = fr.params[1]
     loops = [n for n in walk_local(fr.node) if isinstance(n, ast.For)]
     okf = len(loops) == 1 and src(loops[0].iter) in ('tokens',) and any(
-        isinstance(n, ast.Assign) and F.is_name(n.targets[0], 'tokens') and src(n.value) in (
-            f'self.get_all_tokens(filter_by_categories={p})', f'self.get_all_tokens({p})') for n in walk_local(fr.node))
+        isinstance(n, ast.Assign) and F.is_name(n.targets[0], 'tokens') and F.same(ctx, fr, n.value, f'self.get_all_tokens({p})') for n in walk_local(fr.node))
     if okf:
         t = loops[0].target.id
         for sp in symex.sym_paths(loops[0].body):
